@@ -24,8 +24,13 @@ Reading of the property (what the oracle demands; chosen so that minimally repai
   fields; lines no parser accepts and empty lines are dropped.  The version is the one stated by the first
   non-empty line when that is a matchFileVersion line (either spelling), 0.1.0 otherwise (get_version's
   documented fallback).  Ids are distinct within a file (validate_match_ids is not part of this property).
-* FractionalSymbolicDuration addition: value(a+b) = value(a)+value(b) exactly while the result's
-  numerator and denominator stay <= 1024 (beyond that the class deliberately approximates).
+* FractionalSymbolicDuration: a duration built from / read as integers n, d <= 1024 (the bound of the class, 1024
+  itself included) holds exactly n and d; value(a+b) = value(a)+value(b) exactly while the common denominator and
+  the summed numerator stay <= 1024 (beyond that the class deliberately approximates: nothing is demanded of the
+  value there, the approximation itself is modelled and compared).
+* histories: what a line object writes is a function of that object: it is the same text whether the object is
+  the only one ever created or other line objects (of any class and format version) were constructed, parsed,
+  dispatched, converted or written before.
 """
 import io
 import contextlib
@@ -41,7 +46,9 @@ from core import Eval
 PROPERTY = "C07"
 DRIVER = "drv_c07"
 PROPS = ["PartituraModel.Props.C07", "PartituraModel.Props.C07Codecs", "PartituraModel.Props.C07Lines",
-         "PartituraModel.Props.C07Files"]
+         "PartituraModel.Props.C07Files", "PartituraModel.Props.C07Bound",
+         "PartituraModel.Props.C07Hist", "PartituraModel.Props.C07Dispatch",
+         "PartituraModel.Props.C07ToV1", "PartituraModel.Props.C07Keys"]
 TRUSTED = [
     "Python `re` for the pattern sub-language of the match modules (literals, named groups over "
     "[^,] . [0-9,] [a-z,] [^)] with + or *): leftmost match, greedy quantifiers with backtracking - "
@@ -52,9 +59,15 @@ TRUSTED = [
     "is the correctly rounded k-decimal rendering of the exact binary value (modelled exactly with Rat: "
     "`toBinary64`, `roundHalfEven`); repr(float) of a decimal with <= 15 significant digits in [1e-4,1e16) "
     "is that decimal normalised (opaque: the model carries the decimal)",
+    "bound_integers: np.int64 / np.int64 is the correctly rounded binary64 quotient, float * int and float - float "
+    "are correctly rounded, np.round is half-to-even, np.argmin returns the first minimum (modelled exactly with Rat "
+    "by `boundInts`; integers below 2^40); harness/translate_c07.py reads the bound and the candidate denominators "
+    "off the live class by probing (a candidate table that is not ascending would only show in the comparison)",
     "int(), str.strip/split/upper/lower, numpy lcm/dot/sign/abs on small integers",
     "load_matchfile: open()/splitlines() on ASCII text, np.unique(return_index) = first occurrences in file order "
     "(modelled by List.eraseDups); validate_match_ids does not remove a line when all ids are distinct",
+    "histories: Python object identity - a line object is modelled as (version, kind, field values); that the "
+    "classes keep no other state is exactly what the `hist` stream compares",
 ]
 PARTIAL = [
     "line_roundtrip (every well-formed template, codec selected by the Attribute, pitch post-processing, line at an "
@@ -72,28 +85,43 @@ PARTIAL = [
     "'%.kf' as its own numeral and read back: the binary64 rounding step is proved to stay within relative error "
     "2^-53), fixed_decimal_fixpoint (any float: one formatting round, then a fixpoint), repr_roundtrip (the decimal "
     "the model carries); not covered: negative zero (the model carries no sign of zero; never generated), "
-    "subnormal / overflowing values, and that Python's repr prints the shortest decimal (TRUSTED)",
-    "durations: frac_string_roundtrip / frac_string_fixpoint cover simple, tuplet and additive durations whose "
-    "running sums stay within the bound 1024 and whose parts are non-zero; a zero part is dropped by the class "
-    "(same text and value afterwards, different object - shown by an example); bound_integers (> 1024, binary64 "
-    "arithmetic) is covered by the oracle only",
-    "keys: 30 keys x 4 spellings and 900 double keys x 2 spellings by kernel evaluation; key lists with further "
-    "components (0.3.0 list spelling) are compared only",
-    "dispatch: that a written line of kind k is rejected by every parser tried before k's own is compared on every "
-    "generated line and on every line of the synthesised files, not proved; version_detected / loadFile_version "
-    "prove version detection and the parser list for every written version line a.b.c; validate_match_ids "
-    "(pruning of repeated ids) is outside the model - synthesised files use distinct ids",
-    "to_v1: kind preservation and the content of pedal / deletion / note-pair / performed-note conversion are "
-    "proved; the conversion of info and meta values (key, time signature, subtitle, tempo words) is compared",
+    "subnormal / overflowing values, nan / inf, and that Python's repr prints the shortest decimal (TRUSTED)",
+    "durations: frac_string_roundtrip / frac_string_fixpoint / frac_string_roundtrip_total cover simple, tuplet and "
+    "additive durations whose numbers and running sums stay within the bound 1024 (1024 included: bound_identity) and "
+    "whose parts are non-zero; a zero part is dropped by the class (same text and value afterwards, different object "
+    "- shown by an example).  bound_integers beyond the bound is MODELLED exactly and compared (fracmk / fracparse / "
+    "fracadd and every line field), and proved to be np.argmin over the candidate table (bound_approx, "
+    "bound_first_minimum); that the approximated duration is a fixpoint of a second string round trip is compared "
+    "(oracle + model), not proved (binary64 products of different candidates are not comparable in general)",
+    "keys: 30 keys x 4 spellings and 900 double keys x 2 spellings by kernel evaluation; key lists of ANY length in "
+    "the 0.3.0 list spelling (key_list_roundtrip, all 930 keys per component); keys outside the 930 (fifths beyond "
+    "+-7) are rejected by the code and not generated",
+    "dispatch: dispatch_table_ok + dispatch_written / dispatch_template_line / dispatch_composite_line prove for all "
+    "68 (version, kind) pairs that every parser tried before the line's own rejects the written line, under the value "
+    "conditions: no field text holds '(' , the score-note fields of a deletion hold no ',' ')' and no field text "
+    "contains one of the identifier literals that alone tell the variants of deletion / insertion apart "
+    "('-deletion.', 'insertion-', ...) - free-text info values with '(' are only compared; loadFile_written composes "
+    "it to whole files of the six versions with distinct non-empty lines; validate_match_ids (pruning of repeated "
+    "ids) is outside the model - synthesised files use distinct ids",
+    "to_v1: kind preservation and the content of every conversion are proved (toV1_pedal, _deletion, _snote_note, "
+    "_insertion_content, _trill_content, _meta_content, _info_content, _info_signatures); for subtitle and "
+    "tempoIndication the VALUE changes by design (list of words -> one text) and its new form is compared only",
+    "histories: history_write_independent / write_after_history / slot_stable hold in the model by construction (a "
+    "functional heap); their content is the tie: the `hist` stream runs the same histories on the real classes",
 ]
 RULE = ("for every line class x supported version, field values drawn from the field tables: identifiers, every "
         "step x accidental, octaves, rests, measures/beats, fractional durations with/without tuplet divisor and "
-        "additive components, boundary floats (x.00005, exact ties k/32), attribute lists of length 0-6, all 30 keys "
-        "in every spelling, ticks, controller values; every line of tests/data/match/*.match; complete SYNTHESISED "
-        "files of versions 0.1.0-0.5.0 and 1.0.0 (version line in both spellings or absent, 2-6 info lines, "
-        "meta / scoreprop lines, 12-28 body lines of all top-level kinds with distinct ids, empty / unparseable / "
-        "repeated lines) read through load_matchfile; distinct = distinct formatted line per class/version (distinct "
-        "file text); non-trivial = the line was formatted and parsed (the file was loaded)")
+        "additive components, durations AT THE BOUND of the class (numerators / denominators 1023, 1024, 1025, far "
+        "beyond; sums whose common denominator or summed numerator is exactly 1024) alone, added, and inside every "
+        "line kind / version that carries a duration, boundary floats (x.00005, exact ties k/32), attribute lists of "
+        "length 0-6, all 30 keys in every spelling, ticks, controller values; every line of tests/data/match/*.match; "
+        "complete SYNTHESISED files of versions 0.1.0-0.5.0 and 1.0.0 (version line in both spellings or absent, 2-6 "
+        "info lines, meta / scoreprop lines, 12-28 body lines of all top-level kinds with distinct ids, empty / "
+        "unparseable / repeated lines) read through load_matchfile; HISTORIES of 3-7 line objects (one kind in 2-4 "
+        "format versions plus other kinds) created by constructor / from_matchline / parse_matchline / to_v1 in one "
+        "order and written in another, every object at least once; distinct = distinct formatted line per "
+        "class/version (distinct file text, distinct history); non-trivial = the line was formatted and parsed (the "
+        "file was loaded, the history was run)")
 LEVEL_TEXT = ("Lean 4 theorems about an executable model of template formatting and regular-expression search "
               "(greedy with backtracking) over the GENERATED table of all match-line templates: for every template "
               "satisfying decidable well-formedness / dependency predicates (checked for the whole table by kernel "
@@ -102,11 +130,16 @@ LEVEL_TEXT = ("Lean 4 theorems about an executable model of template formatting 
               "Attribute, lines with pitch post-processing (every step, accidental, octave) and composite lines, whose "
               "'no early match' condition follows from a structural check of the generated composite table; every "
               "codec of the field tables is a round trip on its admissible values (durations with tuplet divisor and "
-              "additive components, time signatures, quoted strings, tempo, lists, versions, 30 keys x 4 spellings); "
-              "exact duration addition; version detection for every written version line.  The model is tied to the "
-              "code by regenerating the templates from the live classes and by a differential run of format / parse "
-              "(values and match offsets) / re-format / to_v1 / dispatch on generated field values, on the "
-              "repository's match files and on complete synthesised files read through load_matchfile.")
+              "additive components, time signatures, quoted strings, tempo, lists, versions, 30 keys x 4 spellings, key "
+              "lists of any length); the bound of symbolic durations (bound_integers, binary64 arithmetic modelled "
+              "exactly, bound and candidate table re-read from the live class): identity up to and including 1024, "
+              "np.argmin over the table beyond, exact and total duration addition; ordered dispatch: for all 68 "
+              "(version, kind) pairs every parser tried before a written line's own rejects it, composed to whole "
+              "files; to_v1 content for every kind; version detection for every written version line; independence "
+              "of a line's text from the history of other line objects.  The model is tied to the code by regenerating "
+              "the templates and the bound from the live classes and by a differential run of construct / format / "
+              "parse (values and match offsets) / re-format / to_v1 / dispatch / histories on generated field values, "
+              "on the repository's match files and on complete synthesised files read through load_matchfile.")
 SEARCH_LIMIT = 6000
 
 VERS0 = [(0, 1, 0), (0, 2, 0), (0, 3, 0), (0, 4, 0), (0, 5, 0)]
@@ -322,20 +355,61 @@ def wire_val(x):
 
 
 def model_ok_value(x):
-    """values the model covers (bounded fractions: oracle only)"""
+    """values the model covers: every duration whose integers are exactly representable in binary64 and whose
+    denominators are non-zero (bound_integers itself is modelled), decimals with at most 15 significant digits"""
     U = mods()["U"]
     if isinstance(x, U.FractionalSymbolicDuration):
-        if int(x.numerator) > 1024 or int(x.denominator) > 1024:
+        comps = [frac_tuple(c) for c in (x.add_components or [])]
+        nums = [int(x.numerator), int(x.denominator)] + [v for c in comps for v in c[:2]]
+        if any(v < 0 or v >= 2 ** 40 for v in nums):
             return False
-        if x.add_components is not None and not fold_fits(x.add_components):
-            return False  # re-reading the sum runs into bound_integers (binary64 approximation)
-        return all(c[0] <= 1024 and c[1] <= 1024 for c in (x.add_components or []))
+        if int(x.denominator) == 0 or x.tuple_div == 0 or any(c[1] == 0 or c[2] == 0 for c in comps):
+            return False
+        return True
     if isinstance(x, U.MatchTimeSignature):
         return all(model_ok_value(o) for o in x.other_components)
     if isinstance(x, float):
         ax = abs(x)
         return x == x and ax < 1e15 and (ax == 0 or ax >= 1e-4) and len(repr(ax).replace(".", "").lstrip("0")) <= 15
     return True
+
+
+# ------------------------------------------------------------------ the bound of symbolic durations (independent reading)
+FBOUND = 1024  # the documented bound: numerators and denominators up to AND INCLUDING 1024 are kept as they are
+
+
+def expected_frac(j):
+    """what the class must hold for the JSON description `j` of a duration, computed with plain integers, or None
+    where the class deliberately approximates (some number or partial sum beyond the bound): canonical text"""
+    from math import lcm
+    if isinstance(j, dict):
+        comps = [tuple(c) for c in j["add"]]
+        if any(c[0] > FBOUND or c[1] > FBOUND or c[1] == 0 or c[2] == 0 for c in comps):
+            return None
+        n, dd = 0, 1
+        for c in comps:  # sum(parts) = ((0 + p1) + p2) + ...
+            dc = c[1] * (c[2] if c[2] is not None else 1)
+            L = lcm(dd, dc)
+            n = n * (L // dd) + c[0] * (L // dc)
+            dd = L
+            if n > FBOUND or dd > FBOUND:
+                return None
+        kept = [c for c in comps if c[0] != 0]
+        return "F(%d,%d,-,[%s])" % (n, dd, ",".join("(%d,%d,%s)" % (c[0], c[1], "-" if c[2] is None else "%d" % c[2])
+                                                  for c in kept))
+    n, dd, t = j
+    if n > FBOUND or dd > FBOUND:
+        return None
+    return "F(%d,%d,%s,-)" % (n, dd, "-" if t is None else "%d" % t)
+
+
+def frac_descs(f, pre=""):
+    """(field name, JSON description) of every duration in the JSON field values of a line"""
+    for k, v in f.items():
+        if k in ("snote", "stime") and isinstance(v, dict):
+            yield from frac_descs(v, k + ".")
+        elif k in ("Offset", "Duration") and (isinstance(v, dict) or (isinstance(v, list) and len(v) == 3)):
+            yield pre + k, v
 
 
 # ------------------------------------------------------------------ building line objects
@@ -538,16 +612,57 @@ def g_ident(rng):
 
 
 def g_simple(rng, allow_div=True):
+    if rng.random() < 0.05:
+        return g_bsimple(rng, allow_div)
     d = rng.choice(DENS)
     n = rng.choice([0, 1, 1, 1, 2, 3, 5, 7, rng.randint(0, 64)])
     t = rng.choice([None, None, None, 3, 5, 6, 7]) if allow_div else None
     return [n, d, t]
 
 
+BNDS = [1023, 1024, 1025]
+
+
+def g_bsimple(rng, allow_div=True):
+    """a simple duration at the bound of the class (1024): numerator or denominator 1023 / 1024 / 1025, or far beyond"""
+    t = rng.choice([None, None, 3]) if allow_div else None
+    r = rng.random()
+    if r < 0.4:
+        return [rng.choice([1, 3, 5, 7] + BNDS), rng.choice([512, 2048] + BNDS * 2), t]
+    if r < 0.7:
+        return [rng.choice(BNDS), rng.choice([1, 3, 236, 1024]), t]
+    if r < 0.85:
+        return [rng.randint(1, 3000), rng.randint(1, 3000), t]
+    return [rng.randint(1000, 50000), rng.choice([3, 7, 960, 2048, 4000, rng.randint(1, 10 ** 6)]), t]
+
+
+def g_bfrac(rng):
+    """durations at the bound: simple ones, and sums whose common denominator / summed numerator is exactly 1024,
+    just below or just beyond"""
+    r = rng.random()
+    if r < 0.5:
+        return g_bsimple(rng)
+    if r < 0.75:
+        d2 = rng.choice(BNDS)
+        comps = [[rng.choice([1, 3]), rng.choice([256, 512, 2, 4]), None], [rng.choice([1, 3, 5]), d2, None]]
+        if rng.random() < 0.3:
+            comps.append([1, rng.choice([2, 4, 1024]), None])
+        return {"add": comps}
+    if r < 0.9:
+        a = rng.randint(1, 1022)
+        d = rng.choice([1, 3, 7])
+        return {"add": [[a, d, None], [rng.choice(BNDS) - a, d, None]]}
+    c = g_simple(rng)
+    c[0] = c[0] or 1  # (a zero part is dropped by the class: the sum would be re-read as a simple duration)
+    return {"add": [g_bsimple(rng), c]}
+
+
 def g_frac(rng, big=False):
     r = rng.random()
     if big and r < 0.5:
         return [rng.randint(1000, 5000), rng.choice([3, 7, 960, 1024, 1025, 2048, 4000]), rng.choice([None, 3])]
+    if rng.random() < 0.06:
+        return g_bfrac(rng)
     if r < 0.25:
         comps = []
         for _ in range(rng.randint(2, 4)):
@@ -661,7 +776,8 @@ def g_key(rng, fmt, others_ok):
 def g_tsig(rng, others_ok):
     t = {"n": rng.choice([1, 2, 3, 4, 5, 6, 7, 9, 12, rng.randint(1, 32)]), "d": rng.choice([1, 2, 4, 8, 16, 32])}
     if others_ok and rng.random() < 0.3:
-        t["others"] = [[rng.choice([2, 3, 4, 6]), rng.choice([2, 4, 8]), None] for _ in range(rng.randint(1, 4))]
+        t["others"] = [[rng.choice([2, 3, 4, 6]), rng.choice([2, 4, 8]), None] if rng.random() < 0.9 else g_bsimple(rng, False)
+                       for _ in range(rng.randint(1, 4))]
     return t
 
 
@@ -823,6 +939,46 @@ def g_mfile(rng, ver):
     return {"k": "mfile", "ver": list(ver), "lines": lines}
 
 
+HIST_T = ("snote_note", "deletion", "trailing_score", "no_played", "insertion", "hammer_bounce", "trailing_played", "trill",
+          "sustain", "soft")
+
+
+def g_hist(rng):
+    """a HISTORY over several line objects alive in one process: 3-7 lines - one kind in two to four different format
+    versions plus lines of other kinds / versions -, created by the constructor, by from_matchline or by
+    parse_matchline in one order, some converted with to_v1, and written in another order (an earlier-built line
+    written after a line of another version was constructed; every line written twice)"""
+    classes = all_classes()
+    focus = rng.choice(["snote", "snote", "snote_note", "deletion", "note", "insertion", "info", "sustain", "trill",
+                        "no_played", "trailing_score", "meta", "soft"])
+    vers = [v for k, v in classes if k == focus]
+    rng.shuffle(vers)
+    lines = [{"kind": focus, "ver": list(v)} for v in vers[:rng.randint(2, 4)]]
+    if rng.random() < 0.5 and focus in KINDS1:
+        lines.append({"kind": focus, "ver": list(V1)})
+    for _ in range(rng.randint(1, 3)):
+        k, v = rng.choice(classes)
+        lines.append({"kind": k, "ver": list(v)})
+    rng.shuffle(lines)
+    for l in lines:
+        l["f"] = g_fields(rng, l["kind"], tuple(l["ver"]))
+    ops, slots = [], 0
+    for i, l in enumerate(lines):
+        top = l["kind"] not in ("snote", "note", "stime", "ptime")
+        ops.append([rng.choice(["B", "B", "P", "D"] if top else ["B", "B", "P"]), i])
+        slots += 1
+        if rng.random() < 0.25 and slots > 1:
+            ops.append(["W", rng.randrange(slots)])
+    for i, l in enumerate(lines):
+        if tuple(l["ver"]) < V1 and l["kind"] in HIST_T and rng.random() < 0.3:
+            ops.append(["T", i])
+            slots += 1
+    order = list(range(slots)) + [rng.randrange(slots) for _ in range(rng.randint(1, 4))]
+    rng.shuffle(order)
+    ops += [["W", j] for j in order]
+    return {"k": "hist", "lines": lines, "ops": ops}
+
+
 def all_classes():
     out = []
     for ver in VERS0:
@@ -868,6 +1024,42 @@ def cases(rng, tier):
     for kind, ver in all_classes():
         for _ in range(n):
             yield {"k": "line", "kind": kind, "ver": list(ver), "f": g_fields(rng, kind, ver)}
+    # the bound of symbolic durations: every numerator / denominator at 1023, 1024, 1025 (and beyond), sums whose
+    # common denominator or summed numerator is exactly the bound - alone, added, and inside every line kind / version
+    # that carries a duration
+    BN = [1, 3, 1023, 1024, 1025, 2048]
+    BD = [1, 3, 512, 1023, 1024, 1025, 2048]
+    for bn in BN:
+        for bd in BD:
+            for bt in (None, 3):
+                yield {"k": "frac", "a": [bn, bd, bt], "b": rng.choice([[1, 1024, None], [1, 512, None], [3, 1024, None],
+                                                                        [1, 1023, None], [1, 3, None], [1, 1025, None]])}
+    for a_, b_ in [([1, 512, None], [1, 1024, None]), ([3, 1024, None], [5, 1024, None]), ([1, 256, None], [1, 512, None]),
+                   ([1000, 3, None], [24, 3, None]), ([1000, 3, None], [25, 3, None]), ([1, 1024, None], [1, 1025, None]),
+                   ([1, 513, None], [1, 2, None]), ([1, 512, 2], [1, 4, None]), ([512, 1, None], [512, 1, None])]:
+        yield {"k": "frac", "a": a_, "b": b_}
+    bfr = [[1, 1024, None], [3, 1024, None], [5, 1024, 3], [1024, 3, None], [1023, 1024, None], [1, 1025, None],
+           {"add": [[1, 512, None], [1, 1024, None]]}, {"add": [[3, 1024, None], [5, 1024, None]]},
+           {"add": [[1000, 3, None], [24, 3, None]]}]
+    for ver in VERS0 + [V1]:
+        for i, bf in enumerate(bfr):
+            f = g_snote(rng, ver)
+            f.update(Duration=bf, Offset=bfr[(i + 3) % len(bfr)])
+            yield {"k": "line", "kind": "snote", "ver": list(ver), "f": f}
+            f = g_fields(rng, "snote_note" if i % 2 else "deletion", ver)
+            f["snote"].update(Duration=bfr[(i + 1) % len(bfr)], Offset=bf)
+            yield {"k": "line", "kind": "snote_note" if i % 2 else "deletion", "ver": list(ver), "f": f}
+    for bf in bfr:
+        f = g_fields(rng, "stime", V1)
+        f["Offset"] = bf
+        yield {"k": "line", "kind": "stime", "ver": list(V1), "f": f}
+        if isinstance(bf, list):
+            f = g_scoreprop(rng)
+            f["Offset"] = bf
+            yield {"k": "line", "kind": "scoreprop", "ver": list(V1), "f": f}
+            for ver in ((0, 4, 0), (0, 5, 0)):
+                yield {"k": "line", "kind": "info", "ver": list(ver),
+                       "f": {"Attribute": "timeSignature", "Value": {"n": 3, "d": 4, "others": [[2, 4, None], bf]}}}
     # fractional durations: strings and addition
     for _ in range(n * 6):
         yield {"k": "frac", "a": g_frac(rng, big=rng.random() < 0.05), "b": g_frac(rng, big=rng.random() < 0.03)}
@@ -883,6 +1075,9 @@ def cases(rng, tier):
     for ver in VERS0 + [V1]:
         for _ in range(nf):
             yield g_mfile(rng, ver)
+    # histories over several line objects of different versions alive at the same time
+    for _ in range({"quick": 60, "thorough": 2000, "search": 200}.get(tier, 60)):
+        yield g_hist(rng)
     # version strings (current "major.minor.patch" and the pre-1.0 "minor.patch")
     for vs in ["1.0.0", "0.5.0", "0.4.0", "0.3.0", "0.1.0", "5.0", "4.0", "3.0", "2.0", "1.0", "0.3", "10.2.33", "1.0.0rc1",
                "5.0 ", "x", "", "1", "1.", "1.a"]:
@@ -944,6 +1139,14 @@ def eval_line(d):
     tpl = tplname(kind, ver)
     flds = fields_of(obj)
     modelled = all(model_ok_value(v) for _, v in flds)
+    # ---- the durations the line was built from (independent reading of the bound, model of the constructor)
+    held = dict(flds)
+    for name, j in frac_descs(f):
+        if name in held:
+            check_construct(ev, "%s %s field %s" % (kind, ver, name), j, held[name])
+    if kind in ("info", "meta", "scoreprop") and isinstance(f.get("Value"), dict) and "others" in f["Value"] and "n" in f["Value"]:
+        for j, o in zip(f["Value"]["others"], obj.Value.other_components):
+            check_construct(ev, "%s %s time signature component" % (kind, ver), j, o)
     line, e1 = call(lambda: obj.matchline)
     # ---- model: formatting
     if modelled:
@@ -1141,10 +1344,35 @@ def fold_fits(comps):
     return True
 
 
+def check_construct(ev, what, j, x):
+    """the duration object `x` built from the JSON description `j`: within the bound (1024 included) it holds exactly
+    the integers it was given (oracle); a simple one is also compared with the model of the constructor"""
+    exp = expected_frac(j)
+    got = canon(x)
+    if exp is not None and got != exp:
+        ev.oracle.append("frac construct: %s: a duration built from %s holds %s, expected %s (numbers up to 1024 are kept)" % (
+            what, json.dumps(j), got, exp))
+    if isinstance(j, list) and all(v is None or 0 <= v < 2 ** 40 for v in j):
+        ev.requests.append("fracmk %d %d %s" % (j[0], j[1], "-" if j[2] is None else "%d" % j[2]))
+        ev.impl.append(got)
+
+
 def eval_frac(d):
     ev = Eval()
     U = mods()["U"]
-    a, b = mk_frac(d["a"]), mk_frac(d["b"])
+    a, ea = call(mk_frac, d["a"])
+    b, eb = call(mk_frac, d["b"])
+    if ea is not None or eb is not None:
+        for j, e in ((d["a"], ea), (d["b"], eb)):
+            if e is not None:
+                if isinstance(j, list) and j[1] != 0:
+                    ev.oracle.append("frac construct: building %s raised %s: %s" % (json.dumps(j), type(e).__name__, e))
+                if isinstance(j, list):
+                    ev.requests.append("fracmk %d %d %s" % (j[0], j[1], "-" if j[2] is None else "%d" % j[2]))
+                    ev.impl.append("err:value")
+        return ev
+    check_construct(ev, "a", d["a"], a)
+    check_construct(ev, "b", d["b"], b)
     for x in (a, b):
         s = str(x)
         y, e = call(U.FractionalSymbolicDuration.from_string, s)
@@ -1152,8 +1380,9 @@ def eval_frac(d):
         if ok:
             ev.requests.append("fracstr %s" % " ".join(wire_frac(x)))
             ev.impl.append(ws(s))
-            ev.requests.append("fracparse %s" % ws(s))
-            ev.impl.append("err:value" if e else canon(y))
+            if s != "":
+                ev.requests.append("fracparse %s" % ws(s))
+                ev.impl.append("err:value" if e else canon(y))
         if e is not None:
             ev.oracle.append("frac string: %r (from %s) does not parse: %s" % (s, canon(x), e))
         else:
@@ -1174,20 +1403,23 @@ def eval_frac(d):
     ok = model_ok_value(a) and model_ok_value(b)
     va, vb = frac_value(a), frac_value(b)
     exact = va + vb
+    if ok:
+        ev.requests.append("fracadd %s %s" % (" ".join(wire_frac(a)), " ".join(wire_frac(b))))
+        ev.impl.append("err:value" if e is not None else canon(c))
     if e is not None:
         ev.oracle.append("frac add: %s + %s raised %s" % (canon(a), canon(b), e))
     else:
-        small = int(c.numerator) <= 1024 and int(c.denominator) <= 1024
         from math import lcm
         da = int(a.denominator) * (int(a.tuple_div) if a.tuple_div is not None else 1)
         db = int(b.denominator) * (int(b.tuple_div) if b.tuple_div is not None else 1)
         L = lcm(da, db)
-        fits = L <= 1024 and exact * L <= 1024
-        if ok and fits:
-            ev.requests.append("fracadd %s %s" % (" ".join(wire_frac(a)), " ".join(wire_frac(b))))
-            ev.impl.append(canon(c))
+        # exact while the common denominator and the summed numerator stay within the bound, 1024 included
+        fits = L <= FBOUND and exact * L <= FBOUND
         if fits and frac_value(c) != exact:
             ev.oracle.append("frac add: value(%s + %s) = %s, exact sum is %s" % (canon(a), canon(b), frac_value(c), exact))
+        if fits and (int(c.numerator), int(c.denominator)) != (int(exact * L), L):
+            ev.oracle.append("frac add: %s + %s holds %d/%d, the sum over the common denominator is %d/%d" % (
+                canon(a), canon(b), int(c.numerator), int(c.denominator), int(exact * L), L))
         if fits and fold_fits(c.add_components or []) and len(c.add_components or []) > 0:
             s = str(c)  # (a sum of zero durations has no components left and is written as the empty text)
             y, e2 = call(U.FractionalSymbolicDuration.from_string, s)
@@ -1362,6 +1594,218 @@ def eval_mfile(d):
     return ev
 
 
+# ------------------------------------------------------------------ pristine evaluations
+# "What a line writes when it is the only object ever created" cannot be observed in a process that has created other
+# line objects (class attributes, module-level memos and mutable defaults keep whatever they were given first or
+# last).  Every process that evaluates cases therefore forks, BEFORE it creates its first line object, a zygote that
+# never creates one itself; a request is answered by a child forked from the zygote, i.e. in a state in which the
+# partitura modules are imported and no line object ever existed.
+_ZYG = {}
+_IN_PRISTINE = [False]
+
+
+def _zygote():
+    if _ZYG.get("pid") == os.getpid():
+        return _ZYG
+    mods()
+    import numpy  # noqa: F401  (imported before the fork, never re-imported in the children)
+    r1, w1 = os.pipe()
+    r2, w2 = os.pipe()
+    pid = os.fork()
+    if pid == 0:
+        try:
+            os.close(w1)
+            os.close(r2)
+            dn = os.open(os.devnull, os.O_RDWR)
+            os.dup2(dn, 0)
+            os.dup2(dn, 1)
+            os.dup2(dn, 2)
+            _IN_PRISTINE[0] = True
+            _serve(r1, w2)
+        finally:
+            os._exit(0)
+    os.close(r1)
+    os.close(w2)
+    _ZYG.clear()
+    _ZYG.update(pid=os.getpid(), w=os.fdopen(w1, "w"), r=os.fdopen(r2, "r"))
+    return _ZYG
+
+
+def _serve(rfd, wfd):
+    rf = os.fdopen(rfd, "r")
+    wf = os.fdopen(wfd, "w")
+    for line in rf:
+        r, w = os.pipe()
+        pid = os.fork()
+        if pid == 0:
+            try:
+                os.close(r)
+                try:
+                    out = _pristine(json.loads(line))
+                except BaseException as e:  # the parent treats it as "no pristine answer"
+                    out = {"error": "%s: %s" % (type(e).__name__, e)}
+                with os.fdopen(w, "w") as f:
+                    f.write(json.dumps(out))
+            finally:
+                os._exit(0)
+        os.close(w)
+        with os.fdopen(r, "r") as f:
+            data = f.read()
+        os.waitpid(pid, 0)
+        wf.write((data.replace("\n", " ") or "null") + "\n")
+        wf.flush()
+
+
+def pristine(req):
+    """answer of a process in which no line object was ever created (None when the machinery fails)"""
+    if _IN_PRISTINE[0]:
+        return None
+    try:
+        z = _zygote()
+        z["w"].write(json.dumps(req) + "\n")
+        z["w"].flush()
+        line = z["r"].readline()
+        return json.loads(line) if line.strip() else None
+    except (OSError, ValueError):
+        return None
+
+
+def hist_create(how, l, ref):
+    """the line object of description `l` created by the constructor / from_matchline(ref) / parse_matchline(ref)"""
+    m = mods()
+    U, IM = m["U"], m["IM"]
+    ver = tuple(l["ver"])
+    if how == "B":
+        obj, e = call(build, l["kind"], ver, l["f"])
+        if e is not None:
+            raise e
+        return obj
+    if ref is None:
+        return None
+    if how == "P":
+        obj, e = call(cls_of(l["kind"], ver).from_matchline, ref, version=U.Version(*ver))
+        return None if e is not None else obj
+    methods = IM.FROM_MATCHLINE_METHODSV1 if ver >= (1, 0, 0) else IM.FROM_MATCHLINE_METHODSV0
+    obj, e = call(IM.parse_matchline, ref, methods, U.Version(*ver))
+    return None if e is not None else obj
+
+
+def _pristine(req):
+    if req["op"] == "text":
+        o = hist_create(req["how"], req["line"], req.get("ref"))
+        if o is not None and req.get("t"):
+            o, e = call(mods()["M1"].to_v1, o)
+            if e is not None:
+                o = None
+        if o is None:
+            return {"text": None}
+        t, e = call(lambda: o.matchline)
+        return {"text": None if e is not None else t}
+    if req["op"] == "hist":
+        return run_hist(req["case"], req["refs"])
+    if req["op"] == "eval":
+        return {"oracle": list(_evaluate(req["case"]).oracle)}
+    return None
+
+
+def run_hist(d, refs):
+    """the history itself on the real classes: request tokens, observations, and for every text written the creation
+    chain of the object, the text (None = writing raised) and the number of objects alive"""
+    m = mods()
+    lines = d["lines"]
+    heap, srcs, obs, toks, writes = [], [], [], [], []
+    modelled = all(r is not None and all(ord(c) < 128 for c in r) for r in refs)
+    for op, j in d["ops"]:
+        if op in ("B", "P", "D"):
+            l = lines[j]
+            ver = tuple(l["ver"])
+            vs = "%d.%d.%d" % ver
+            o = hist_create(op, l, refs[j])
+            if op == "B":
+                flds = fields_of(o)
+                if not all(model_ok_value(v) for _, v in flds):
+                    modelled = False
+                else:
+                    vt = []
+                    for _, v in flds:
+                        vt += wire_val(v)
+                    toks.append("B %s %s %d %s" % (vs, l["kind"], len(flds), " ".join(vt)))
+            elif op == "P":
+                toks.append("P %s %s %s" % (vs, l["kind"], ws(refs[j] or "")))
+            else:
+                toks.append("D %s %s" % (vs, ws(refs[j] or "")))
+            if o is None:
+                obs.append("x")
+            else:
+                if not all(model_ok_value(v) for _, v in fields_of(o)):
+                    modelled = False
+                obs.append("+%d" % len(heap))
+                heap.append(o)
+                srcs.append([op, j])
+        elif op == "T":
+            toks.append("T %d" % j)
+            o, e = (None, True) if j >= len(heap) else call(m["M1"].to_v1, heap[j])
+            if e is not None or o is None:
+                obs.append("x")
+            else:
+                obs.append("+%d" % len(heap))
+                heap.append(o)
+                srcs.append(srcs[j] + ["T"])
+        else:
+            toks.append("W %d" % j)
+            if j >= len(heap):
+                obs.append("err")
+                continue
+            t, e = call(lambda: heap[j].matchline)
+            obs.append("err" if e is not None else ws(t))
+            if e is None and not all(ord(c) < 128 for c in t):
+                modelled = False
+            writes.append([srcs[j], None if e is not None else t, len(heap), None if e is None else "%s: %s" % (type(e).__name__, e)])
+    return {"toks": toks, "obs": obs, "modelled": modelled, "writes": writes}
+
+
+def eval_hist(d):
+    """run the history on the real classes, in a process in which no other line object ever existed; every text written
+    must be the text the same line writes when it is created (the same way) as the only line object of a process"""
+    ev = Eval()
+    lines = d["lines"]
+    # ---- every line alone
+    refs = []
+    for l in lines:
+        a = pristine({"op": "text", "how": "B", "line": l})
+        if a is None:  # no fork available: the line written at once in this process
+            o = hist_create("B", l, None)
+            t, e = call(lambda: o.matchline)
+            a = {"text": None if e is not None else t}
+        refs.append(a.get("text"))
+    # ---- the history (only the objects of this history exist)
+    r = pristine({"op": "hist", "case": d, "refs": refs})
+    if r is None or "toks" not in r:
+        r = run_hist(d, refs)
+    memo = {}
+    for src, t, alive, err in r["writes"]:
+        if len(src) > 3:
+            continue
+        key = tuple(src)
+        if key not in memo:
+            if len(src) == 2 and src[0] == "B":
+                memo[key] = refs[src[1]]
+            else:
+                a = pristine({"op": "text", "how": src[0], "line": lines[src[1]], "ref": refs[src[1]], "t": len(src) > 2})
+                memo[key] = None if not a else a.get("text")
+        alone = memo[key]
+        if alone is not None and t != alone:
+            l = lines[src[1]]
+            ev.oracle.append("history: the %s %s line created by %s and written when %d line objects existed gives %r; "
+                             "created the same way as the only line object of the process it gives %r" % (
+                                 l["kind"], tuple(l["ver"]), "+".join(src[::2]), alive, err if t is None else t, alone))
+    if r["modelled"]:
+        ev.requests.append("hist %d %s" % (len(r["toks"]), " ".join(r["toks"])))
+        ev.impl.append(" ".join(r["obs"]))
+    ev.key = "hist|" + "|".join(x or "" for x in refs) + "|" + " ".join("%s%d" % (o, j) for o, j in d["ops"])
+    return ev
+
+
 def eval_dispatch(d):
     ev = Eval()
     m = mods()
@@ -1405,7 +1849,7 @@ def eval_ver(d):
     return ev
 
 
-def evaluate(d):
+def _evaluate(d):
     k = d["k"]
     if k == "ver":
         return eval_ver(d)
@@ -1421,9 +1865,25 @@ def evaluate(d):
         ev = eval_dispatch(d)
     elif k == "mfile":
         ev = eval_mfile(d)
+    elif k == "hist":
+        ev = eval_hist(d)
     else:
         raise ValueError(k)
     ev.impl = [x for x in ev.impl]
+    return ev
+
+
+def evaluate(d):
+    _zygote()  # before this process creates its first line object
+    ev = _evaluate(d)
+    if ev.oracle and d["k"] != "hist":
+        # a failure of a single-object case that does not show in a process that never created another line object
+        # is the trace of an EARLIER case of this worker (state kept across objects): it is reported - reproducibly -
+        # by the history cases, not by this one
+        a = pristine({"op": "eval", "case": d})
+        if a is not None and a.get("oracle") == []:
+            ev.info = dict(ev.info or {}, history_induced=list(ev.oracle))
+            ev.oracle = []
     return ev
 
 
@@ -1439,6 +1899,12 @@ def finding_key(d, f):
 
 def shrink(d):
     """smaller candidates: shorten lists, simplify fractions, zero numbers"""
+    if d.get("k") == "hist":
+        ops = d["ops"]
+        for i in range(len(ops) - 1, -1, -1):  # drop one observation (creations and conversions keep the slot numbers)
+            if ops[i][0] == "W":
+                yield dict(d, ops=ops[:i] + ops[i + 1:])
+        return
     if d.get("k") != "line":
         return
 
